@@ -397,6 +397,22 @@ func gen(c *common.Ctx, emit func(...string)) {
 		var cnt int64
 		genModNs(c, emit, reset, probeModules(newEvaler(&cnt, "/nonexistent")))
 	}
+	// 1d. the builtin namespace grows between two checks of the same source (the editor installs edit:
+	// this way): the verdict of Check must follow it, as Eval's does - Check keeps no memory of sources
+	emit(reset...)
+	for i := 0; i < c.Scale(12, 200); i++ {
+		name := fmt.Sprintf("xb%d", i)
+		src := common.Pick(r, []string{"put $" + name, "tick; echo $" + name + " | nop", "set " + name + " = 1", "var y = $" + name + "; put $nope",
+			"{ put $" + name + " }", "put $" + name + " $" + name + "x"})
+		op("check", src)
+		if i%3 == 0 {
+			op("check", src)
+		}
+		emit("extb", common.Hex(name))
+		op("check", src)
+		op("eval", src)
+		op("check", src)
+	}
 	// the binary on each of them
 	gb := newPG(r, true)
 	for i, b := range gb.staticErrors() {
